@@ -112,6 +112,17 @@ Theorem C04_producers_never_run_handlers : forall prods x,
 Proof. exact producers_never_run. Qed.
 Print Assumptions C04_producers_never_run_handlers.
 
+(* No nesting: whatever happens while a handler runs (producers, the handler itself arming
+   timers / posting / publishing = producer actions, other consumer processes), that consumer
+   process stays in that handler until the handler ends; the next piece is only ever started
+   from the top of the loop. *)
+Theorem C04_handler_runs_to_completion : forall x a j k c v ok p',
+  nth_error (pcs x) j = Some (PRun k c v ok) ->
+  nth_error (pcs (istep x a)) j = Some p' ->
+  p' = PRun k c v ok \/ p' = PTop \/ p' = PDead k.
+Proof. exact handler_runs_to_completion. Qed.
+Print Assumptions C04_handler_runs_to_completion.
+
 (* The len(cases) == 0 branch of HandleOnce is never taken. *)
 Theorem C04_cases_never_empty : forall ops, ~ In ESleep (events ops).
 Proof. exact never_sleep. Qed.
@@ -183,6 +194,7 @@ Example C04_example_funnels :
   /\ produced [2; 3; 4; 5; 6; 2; 3; 8; 10; 2; 5; 5; 3; 4] = [6; 8; 5; 6; 6; 91; 10; 10; 3; 3; 12]
   /\ stress_executed [1; 2; 0; 1; 0; 1; 2; 1; 3; 1; 2; 2; 1; 2; 0; 1100; 0; 1050; 1010; 30; 300]
      = produced [1; 2; 0; 1; 0; 1; 2; 1; 3; 1; 2; 2; 1; 2; 0; 1100; 0; 1050; 1010; 30; 300]
+  /\ stress_executed [0; 0; 0; 0; 0; 0; 0; 0; 0; 0; 0; 0; 0; 0; 0; 0; 0; 0; 0; 0; 0; 2] = [2; 0; 0; 0; 36; 10; 10; 2; 0; 0; 0]
   /\ stress_executed [0; 0; 0; 0; 0; 0; 0; 0; 0; 1; 0; 3; 0; 0; 0; 0; 1200] = [0; 0; 0; 0; 0; 0; 0; 1002; 0; 0; 0]
   /\ produced [0; 0; 0; 0; 0; 0; 0; 0; 0; 1; 0; 3; 0; 0; 0; 0; 1200] = [0; 0; 0; 0; 0; 0; 0; 1203; 0; 0; 0]
   /\ expected [0; 0; 0; 0; 0; 0; 0; 0; 0; 1; 0; 3; 0; 0; 0; 0; 1200] = [0; 0; 0; 0; 0; 0; 0; 1002; 0; 0; 0].
